@@ -229,7 +229,7 @@ def tlc(module, cfg, env_extra=None, workers=1, timeout_s=3600, extra=None, heap
     m = re.search(r"Error: Invariant (\S+) is violated", out)
     if m:
         res["violated"] = m.group(1)
-    m = re.search(r"Error: Action property (\S+) is violated", out) or re.search(r"Temporal properties were violated", out)
+    m = re.search(r"Error: Action property (\S+) is violated", out) or re.search(r"Error: Temporal property (\S+) was violated", out) or re.search(r"Temporal properties were violated", out)
     if m and not res["violated"]:
         res["violated"] = m.group(1) if m.groups() else "temporal"
     if "TRACE-REJECTED" in out:
